@@ -3,6 +3,7 @@ pub mod c01;
 pub mod c02;
 pub mod c03;
 pub mod c04;
+pub mod c05;
 pub mod c06;
 pub mod c13;
 
@@ -26,6 +27,7 @@ pub fn sim_check(id: &str, tier: &str, _seed: i64) -> Option<SimCheck> {
         "C02" => Some(c02::build(tier)),
         "C03" => Some(c03::build(tier)),
         "C04" => Some(c04::build(tier)),
+        "C05" => Some(c05::build(tier)),
         "C06" => Some(c06::build(tier)),
         "C13" => Some(c13::build(tier)),
         _ => None,
@@ -35,6 +37,7 @@ pub fn sim_check(id: &str, tier: &str, _seed: i64) -> Option<SimCheck> {
 /// Non-sim engine parts (enum, loom, spin) for a property.
 pub fn other_parts(id: &str, tier: &str, _seed: i64) -> Vec<crate::report::Part> {
     match id {
+        "C05" => vec![crate::enumc::c05::run(tier)],
         "C06" => vec![crate::enumc::c06::run(tier)],
         "C13" => vec![crate::enumc::c13::run(tier)],
         _ => vec![],
